@@ -247,6 +247,8 @@ PROPS['C08'] = {
         H('c08_lookup_2x1', 'types', 'quick', 1500, 10, '2 sections (strictly increasing offsets, any u32) x 1 token each, any position'),
         H('c08_lookup_1x2', 'types', 'quick', 1500, 10, '1 section (any offset) x 2 sorted tokens, any position'),
         H('c08_lookup_nomap', 'types', 'quick', 1500, 10, '2 sections, exactly one without a map, any position'),
+        H('c08_lookup_nested', 'types', 'quick', 1500, 10,
+          'an index section holding another index map (any two offsets) with 1 token, any position: offsets compose'),
         H('c08_flat_step', 'types_flat', 'quick', 900, 10,
           'lifted per-token body of flatten with a recording mock builder: any token of a section map (2 sources: #0 with '
           'contents, #1 without and ignored; 1 name; ids may dangle), any offsets whose sums fit u32, any mock answers'),
@@ -290,7 +292,8 @@ PROPS['C03'] = {
                     'generated line <= 2 (the format spends one byte per line)', S1,
                     'c03_struct_*: encoder::encode_vlq_diff replaced by a recorder stub; c03_diff_full decides the replaced function'],
     'trusted': [S1],
-    'outside': ['the JSON text itself (serde)', 'to_data_url', 'more than 3 tokens', 'source/name arrays longer than 2'],
+    'outside': ['the JSON text itself (serde)', 'to_data_url', 'more than 3 tokens', 'source/name arrays longer than 2',
+                'SourceMapIndex::as_raw_sourcemap (section offset objects): symex does not finish in 40 min (recursive Encodable/drop glue)'],
 }
 
 SV_STUBS = 'S1 (Vec::new/Vec::push fixed capacity 48, no reallocation), S3 (memchr_aligned byte loop)'
